@@ -75,7 +75,56 @@ class Accumulate(Family):
         return res
 
 
+def wrapper_accumulate(tier):
+    """grid.accumulate: the kernel is called with the default cell limit nrows*ncols, the no-data value of the accumulated grid, the
+    accumulation buffer initialised as an independent copy of the field, and the caller's grids keep their cell values"""
+    import numpy as np
+    from hydrodiy.gis import grid as G
+    from engine.contracts import Recorder, patched_module
+    out = []
+    shapes = [(1, 1), (1, 3), (2, 2), (3, 4), (4, 3), (5, 2)]
+    for (nr, nc) in shapes:
+        for nodata_fd in (0, -1, 255):
+            fd = G.Grid('fd', nc, nr, dtype=np.int64, nodata=nodata_fd)
+            codes = (np.arange(nr * nc).reshape(nr, nc) * 7) % 9
+            vals = np.array([1, 2, 4, 8, 16, 32, 64, 128, nodata_fd])[codes]
+            fd.data = vals
+            fld = G.Grid('f', nc, nr, dtype=np.float64, nodata=-9.5)
+            fld.data = np.arange(nr * nc, dtype=float).reshape(nr, nc) - 2.5
+            fd0, fld0 = fd.data.copy(), fld.data.copy()
+            rec = Recorder()
+            with patched_module(G, 'c_hydrodiy_gis', rec):
+                acc = G.accumulate(fd, fld)
+            c = rec.calls[-1]
+            tag = dict(nrows=nr, ncols=nc, nodata_flowdir=nodata_fd)
+            out.append(('default-cell-limit=nrows*ncols', int(c.args[1]) == nr * nc, dict(tag, got=int(c.args[1]))))
+            out.append(('nodata-passed', float(c.args[2]) == -9.5, tag))
+            out.append(('flowdir-values-passed', np.array_equal(c.args[4], fd0), tag))
+            out.append(('field-passed', np.array_equal(c.args[5], fld0), tag))
+            out.append(('accumulation-initialised-as-copy-of-field', np.array_equal(c.args[6], fld0), tag))
+            out.append(('accumulation-buffer-not-aliased-with-field', not np.shares_memory(c.raw_args[6], c.raw_args[5]), tag))
+            out.append(('caller-flowdir-values-unchanged', np.array_equal(fd.data, fd0), tag))
+            out.append(('caller-field-values-unchanged', np.array_equal(fld.data, fld0), tag))
+        # explicit limit is passed through
+        rec = Recorder()
+        fd = G.Grid('fd', nc, nr, dtype=np.int64)
+        with patched_module(G, 'c_hydrodiy_gis', rec):
+            G.accumulate(fd, max_accumulated_cells=3)
+        out.append(('explicit-cell-limit-passed', int(rec.calls[-1].args[1]) == 3, dict(nrows=nr, ncols=nc)))
+        out.append(('default-field-is-unit', np.array_equal(rec.calls[-1].args[5], np.ones((nr, nc))), dict(nrows=nr, ncols=nc)))
+    return out
+
+
+CONTRACTS = [wrapper_accumulate]
+
+
+def contracts_part(tier, seed, workdir):
+    from engine.contracts import run_contracts
+    return run_contracts('C11', 'harness.C11', CONTRACTS, tier)
+
+
 FAMILIES = [Accumulate()]
+PARTS = [contracts_part]
 
 META = dict(
     explanation='bounded symbolic execution of the LLVM IR of c_accumulate (with c_downstream, c_neighbours) on small grids with symbolic '
